@@ -1155,6 +1155,57 @@ def check_order(ck, scratch):
 # corpus
 
 
+def check_index_refresh(ck, scratch):
+    """A BAM that was replaced after it had been indexed (same path, new reads, modification time later than the
+    index by less than a second): coverage must report the depth of the reads NOW in the file, with both algorithms
+    (the index is rebuilt when it is older than the BAM, whatever the time resolution)."""
+    bam = os.path.join(scratch, 'refresh.bam')
+    bed = os.path.join(scratch, 'refresh.bed')
+    # the added reads lie in other 16 kb index bins and on another contig than the old ones
+    contigs = [('chr1', 200000), ('chr2', 100000)]
+    old = [(0, 100 + 40 * i, '40M', 0, 60, 'a%d' % i) for i in range(10)]
+    new = old + [(0, 120000 + 40 * i, '40M', 0, 60, 'b%d' % i) for i in range(20)] + \
+        [(1, 50000 + 40 * i, '40M', 0, 60, 'c%d' % i) for i in range(5)]
+    with open(bed, 'w') as fh:
+        fh.write('chr1\t0\t1000\tfirst\nchr1\t120000\t121000\tsecond\nchr2\t50000\t51000\tthird\n')
+    write_bam(bam, contigs, old)
+    first = run_code(bed, bam, 'count', 0, 1, None)
+    write_bam_noindex = globals().get('write_bam')
+    import pysam
+    hdr = {'HD': {'VN': '1.6', 'SO': 'coordinate'}, 'SQ': [{'SN': n, 'LN': l} for n, l in contigs]}
+    with pysam.AlignmentFile(bam, 'wb', header=hdr) as f:
+        for tid, pos, cig, flag, mapq, name in new:
+            a = pysam.AlignedSegment(f.header)
+            a.query_name, a.flag, a.reference_id, a.reference_start, a.mapping_quality = name, flag, tid, pos, mapq
+            a.cigarstring = cig
+            a.query_sequence = 'A' * 40
+            f.write(a)
+    bai = bam + '.bai'
+    t = float(int(os.path.getmtime(bai))) + 0.1
+    os.utime(bai, (t, t))
+    os.utime(bam, (t + 0.5, t + 0.5))            # newer than the index, within the same second
+    case = {'stage': 'BAM replaced after indexing', 'old_reads': len(old), 'new_reads': len(new),
+            'bam_mtime_minus_index_mtime_s': 0.5}
+    for alg in ('count', 'pileup'):
+        got = run_code(bed, bam, alg, 0, 1, None)
+        ck.count(['index-refresh', alg], nontrivial=True, cls='index:refresh:' + alg)
+        exp = {('chr1', 0, 1000): 10 * 40 / 1000.0, ('chr1', 120000, 121000): 20 * 40 / 1000.0, ('chr2', 50000, 51000): 5 * 40 / 1000.0}
+        if isinstance(got, Err):
+            ck.violation('coverage (%s) fails on a BAM replaced after indexing: %s' % (alg, got.msg), case, code=got, clause='C09_depth')
+            continue
+        bad = [(r[:3], r[4]) for r in got if abs(r[4] - exp[(r[0], r[1], r[2])]) > 1e-9]
+        if bad:
+            ck.violation('coverage (%s) of a BAM replaced after indexing does not report the depth of the reads now in the file '
+                         '(stale index)' % alg, case, code=bad, expected=[[list(k), v] for k, v in exp.items()], clause='C09_depth')
+            # make later checks independent of this file
+            break
+    for fn in (bam, bai, bed):
+        try:
+            os.remove(fn)
+        except OSError:
+            pass
+
+
 def run_corpus(ck, scratch):
     path = os.path.join(vlib.VERIF, 'corpus', 'c09.json')
     if not os.path.exists(path):
@@ -1236,6 +1287,7 @@ def run(ck, scratch):
     check_text(ck)
     check_to_chunks(ck, scratch)
     check_order(ck, scratch)
+    check_index_refresh(ck, scratch)
     check_cli(ck, scratch)
     quick = ck.tier == 'quick'
     wi = 0
